@@ -91,7 +91,7 @@ pub fn c08(ctx: &Ctx, subj: &dyn DynSubject, ty: &Ty, rep: &mut Report) {
         let path = if via_link { link.clone() } else { path };
         log.classes.push(format!("len-mod64-{}", file.len() % 64));
         // reference: ε-copy of the file bytes
-        let pl = Placed::new(&file, 4096, 0);
+        let pl = Placed::new(&file, 16384, 0);
         let reference = match guard(|| subj.eps(pl.bytes())) {
             Ok(Ok(o)) => o,
             other => return Err(Fail::new("eps-of-file", format!("deserialize_eps of the file bytes failed: {:?}", other.map(|r| r.map(|o| o.val.show()).map_err(|e| format!("{:?}", e)))))),
